@@ -79,6 +79,8 @@ pub struct Cfg {
     pub cost_models: u8,
     pub slot: u64,
     pub time: u128,
+    /// build the compiler as a struct literal (all its fields are public) instead of through `Compiler::new`
+    pub by_literal: bool,
 }
 
 impl Default for Cfg {
@@ -92,6 +94,7 @@ impl Default for Cfg {
             cost_models: 7,
             slot: 101_674_141,
             time: 1_757_611_408_000,
+            by_literal: false,
         }
     }
 }
@@ -120,11 +123,14 @@ pub fn compiler(cfg: &Cfg) -> Compiler {
         coins_per_utxo_byte: cfg.coins_per_byte,
         cost_models,
     };
-    Compiler::new(
-        pparams,
-        Config { extra_fees: cfg.extra_fees },
-        ChainPoint { slot: cfg.slot, hash: vec![], timestamp: cfg.time },
-    )
+    let config = Config { extra_fees: cfg.extra_fees };
+    let cursor = ChainPoint { slot: cfg.slot, hash: vec![], timestamp: cfg.time };
+    if cfg.by_literal {
+        // the two ways of obtaining an instance must behave alike
+        Compiler { pparams, config, latest_tx_body: None, cursor }
+    } else {
+        Compiler::new(pparams, config, cursor)
+    }
 }
 
 pub fn bigint_i128(v: &BigInt) -> Option<i128> {
